@@ -47,7 +47,131 @@ def simple_statements(fn):
     return out
 
 
+CMP_SWAP = {ast.Lt: "<=", ast.LtE: "<", ast.Gt: ">=", ast.GtE: ">", ast.Eq: "!=", ast.NotEq: "==", ast.Is: "is not", ast.IsNot: "is", ast.In: "not in", ast.NotIn: "in"}
+
+
+def expression_sites(fn):
+    """further mutation operators, one site each: ("cmpop", Compare) boundary/negated operator; ("boolop", BoolOp)
+    and<->or; ("const", Constant) int n -> n+1, bool flipped; ("unlock", With) lock context dropped;
+    ("handler", ExceptHandler) caught type replaced by an unrelated one; ("swap", stmt) statement swapped with the next"""
+    out = []
+    def visit(node):
+        for ch in ast.iter_child_nodes(node):
+            if isinstance(ch, (ast.FunctionDef, ast.AsyncFunctionDef, ast.ClassDef, ast.Lambda)):
+                continue
+            if isinstance(ch, ast.Compare) and len(ch.ops) == 1 and type(ch.ops[0]) in CMP_SWAP:
+                out.append(("cmpop", ch))
+            if isinstance(ch, ast.BoolOp):
+                out.append(("boolop", ch))
+            if isinstance(ch, ast.Constant) and (isinstance(ch.value, bool) or (isinstance(ch.value, int) and abs(ch.value) < 1000)) and ch.value is not None:
+                if not (isinstance(node, ast.Expr)):
+                    out.append(("const", ch))
+            if isinstance(ch, (ast.With, ast.AsyncWith)) and any("lock" in ast.unparse(i.context_expr).lower() for i in ch.items) and len(ch.items) == 1:
+                out.append(("unlock", ch))
+            if isinstance(ch, ast.ExceptHandler) and ch.type is not None:
+                out.append(("handler", ch))
+            visit(ch)
+    visit(fn)
+    def blocks(node):
+        for f in ("body", "orelse", "finalbody"):
+            b = getattr(node, f, None)
+            if isinstance(b, list) and b and isinstance(b[0], ast.stmt):
+                yield b
+        if isinstance(node, ast.Try):
+            for h in node.handlers:
+                yield h.body
+    def rec(node):
+        for b in blocks(node):
+            for i in range(len(b) - 1):
+                a, c = b[i], b[i + 1]
+                simple = (ast.Assign, ast.AugAssign, ast.Expr)
+                if isinstance(a, simple) and isinstance(c, simple) and not (isinstance(a, ast.Expr) and isinstance(a.value, ast.Constant)):
+                    out.append(("swap", (a, c)))
+            for st in b:
+                if not isinstance(st, (ast.FunctionDef, ast.AsyncFunctionDef, ast.ClassDef)):
+                    rec(st)
+    rec(fn)
+    return out
+
+
+def make_expr(src, kind, site):
+    seg = lambda n: ast.get_source_segment(src, n)
+    if kind == "cmpop":
+        l, r = seg(site.left), seg(site.comparators[0])
+        if l is None or r is None:
+            return None
+        return apply_edits(src, [(site.lineno, site.col_offset, site.end_lineno, site.end_col_offset, "%s %s %s" % (l, CMP_SWAP[type(site.ops[0])], r))])
+    if kind == "boolop":
+        parts = [seg(v) for v in site.values]
+        if any(p_ is None for p_ in parts):
+            return None
+        op = " or " if isinstance(site.op, ast.And) else " and "
+        return apply_edits(src, [(site.lineno, site.col_offset, site.end_lineno, site.end_col_offset, "(" + op.join("(%s)" % p_ for p_ in parts) + ")")])
+    if kind == "const":
+        v = site.value
+        new = repr(not v) if isinstance(v, bool) else repr(v + 1)
+        return apply_edits(src, [(site.lineno, site.col_offset, site.end_lineno, site.end_col_offset, new)])
+    if kind == "unlock":
+        it = site.items[0]
+        line = src.splitlines()[site.lineno - 1]
+        if not line.strip().startswith("with ") or site.body[0].lineno == site.lineno:
+            return None
+        # replace the header (up to the colon before the body) by `if True:`
+        hdr_end_line = site.body[0].lineno - 1
+        lines = src.splitlines(keepends=True)
+        k = hdr_end_line - 1
+        while k >= site.lineno - 1 and not lines[k].rstrip().endswith(":"):
+            k -= 1
+        if k < site.lineno - 1:
+            return None
+        return apply_edits(src, [(site.lineno, site.col_offset, k + 1, len(lines[k].rstrip()), "if True:")])
+    if kind == "handler":
+        t = site.type
+        cur = ast.unparse(t)
+        new = "KeyError" if "KeyError" not in cur else "ValueError"
+        return apply_edits(src, [(t.lineno, t.col_offset, t.end_lineno, t.end_col_offset, new)])
+    if kind == "swap":
+        a, c = site
+        sa_, sc = seg(a), seg(c)
+        if sa_ is None or sc is None or a.col_offset != c.col_offset:
+            return None
+        lines = src.splitlines()
+        if lines[a.lineno - 1][: a.col_offset].strip() or lines[c.lineno - 1][: c.col_offset].strip():
+            return None
+        return apply_edits(src, [(a.lineno, a.col_offset, a.end_lineno, a.end_col_offset, sc), (c.lineno, c.col_offset, c.end_lineno, c.end_col_offset, sa_)])
+    return None
+
+
+EXPR_KINDS = ("cmpop", "boolop", "const", "unlock", "handler", "swap")
+
+
+def sites(fn, kind):
+    if kind in EXPR_KINDS:
+        return [s for s in expression_sites(fn) if s[0] == kind]
+    return [s for s in simple_statements(fn) if s[0] == kind]
+
+
+def site_line(kind, st):
+    if kind == "swap":
+        return st[0].lineno
+    return st.lineno
+
+
+def site_text(kind, st):
+    if kind == "swap":
+        return ast.unparse(st[0])[:40] + " <-> " + ast.unparse(st[1])[:40]
+    if kind == "negate":
+        return ast.unparse(st.test)
+    if kind == "unlock":
+        return "with " + ast.unparse(st.items[0].context_expr)
+    if kind == "handler":
+        return "except " + ast.unparse(st.type)
+    return ast.unparse(st)
+
+
 def make(src, kind, st):
+    if kind in EXPR_KINDS:
+        return make_expr(src, kind, st)
     lines = src.splitlines(keepends=True)
     if kind == "del":
         ind = " " * st.col_offset
@@ -68,10 +192,13 @@ def job(a):
     rel, q, kind, idx, props = a
     src = open(os.path.join(ROOT, rel), encoding="utf-8").read()
     fn = dict(functions(ast.parse(src)))[q]
-    sts = [s for s in simple_statements(fn) if s[0] == kind]
+    sts = sites(fn, kind)
     k, st = sts[idx]
-    new = make(src, kind, st)
-    desc = "%s:%d %s" % (rel, st.lineno, " ".join(ast.unparse(st if kind == "del" else st.test).split())[:90])
+    try:
+        new = make(src, kind, st)
+    except Exception:
+        new = None
+    desc = "%s:%d %s" % (rel, site_line(kind, st), " ".join(site_text(kind, st).split())[:90])
     if new is None:
         return (rel, q, kind, desc, "skip", [])
     try:
@@ -87,7 +214,7 @@ def job(a):
                 hit.append((p, code))
     finally:
         sys.stdout = sys.__stdout__
-    return (rel, q, kind, desc, "caught" if any(c == 1 for _, c in hit) else ("error" if hit else "MISSED"), hit)
+    return (rel, q, kind, desc, "caught" if any(c == 1 for _, c in hit) else ("error" if hit else "MISSED"), hit, idx)
 
 
 def main():
@@ -108,9 +235,8 @@ def main():
         for q, fn in functions(ast.parse(src)):
             if only_func and not q.startswith(only_func):
                 continue
-            sts = simple_statements(fn)
             for kind in kinds:
-                n = sum(1 for s in sts if s[0] == kind)
+                n = len(sites(fn, kind))
                 for i in range(n):
                     jobs.append((rel, q, kind, i, props))
     with ProcessPoolExecutor(16) as ex:
@@ -119,9 +245,9 @@ def main():
     missed = [r for r in tot if r[4] == "MISSED"]
     err = [r for r in tot if r[4] == "error"]
     for r in missed:
-        print("MISSED %-6s %s  [%s]" % (r[2], r[3], r[1]))
+        print("MISSED %-7s %s  [%s]" % (r[2], r[3], r[1]))
     for r in err:
-        print("ERR    %-6s %s  [%s] %s" % (r[2], r[3], r[1], r[5]))
+        print("ERR    %-7s %s  [%s] %s" % (r[2], r[3], r[1], r[5]))
     print("mutation scan: %d variants, %d caught, %d analysis-error only, %d missed" % (len(tot), sum(1 for r in tot if r[4] == "caught"), len(err), len(missed)))
     out = args[args.index("--out") + 1] if "--out" in args else "/tmp/w/mutation_scan.json"
     json.dump([list(r) for r in tot], open(out, "w"))
